@@ -73,5 +73,5 @@ Proof.
   intros r rl limit n HN G x Hx. rewrite (rrule_iter_correct_coarse_all r rl limit n HN G) in Hx.
   apply (spec_iter_good r) with (limit := limit) (n := n); [|exact Hx].
   destruct G as (_ & _ & _ & Hf). unfold is_coarse, YEARLY, MONTHLY, WEEKLY, DAILY in *.
-  destruct Hf as [Hf|[Hf|[(Hf & _)|Hf]]]; rewrite Hf; reflexivity.
+  destruct Hf as [Hf|[Hf|[Hf|Hf]]]; rewrite Hf; reflexivity.
 Qed.
